@@ -226,6 +226,62 @@ def stream_serialisation(rep, cfg):
         rep.ob("STREAM/%s/%s::flag-room" % (cfg.name, f), worst <= buf, "(MODULUS_BIT_SIZE + F::BIT_SIZE + 7)/8 stays within the (MODULUS_BIT_SIZE+7)/8-byte buffer for EmptyFlags/TEFlags/SWFlags: %d <= %d" % (worst, buf), nontrivial=False)
 
 
+def flagged(rep, cfg):
+    """generic-F flagged (de)serialisation: one size formula shared by writer and reader; flags live in / leave the last byte"""
+    if cfg.name not in ("A", "R"):
+        return
+    for f in FIELDS:
+        bits = K.MODULI[f].bit_length()
+        N8 = n8(f)
+        size = Tm.intop("idiv", Tm.intop("iadd", Tm.intop("iadd", lit(bits), mk("flags_bit_size", "F")), lit(7)), lit(8))
+        S_ = mk("param", "self")
+        p = find1(rep, cfg, "serialized_size_with_flags(%s)" % f, r"^fields::%s::arkworks::<impl ark_serialize::CanonicalSerializeWithFlags for .*>::serialized_size_with_flags$" % f)
+        if p:
+            out = cfg.run(p, mode="glue")
+            rep.ob("FLAGS/%s/%s::size" % (cfg.name, f), out.value is size, "serialized_size_with_flags must be (MODULUS_BIT_SIZE + F::BIT_SIZE + 7)/8 = %s; got %s" % (Tm.show(size), Tm.show(out.value, maxdepth=6)),
+                   where=cfg.where(p), sample={"obligation": "FLAGS/%s/%s::size" % (cfg.name, f), "term": Tm.show(out.value, maxdepth=6)})
+        p = find1(rep, cfg, "serialize_with_flags(%s)" % f, r"^fields::%s::arkworks::<impl ark_serialize::CanonicalSerializeWithFlags for .*>::serialize_with_flags$" % f)
+        if p:
+            out = cfg.run(p, mode="glue")
+            cb = mk("canon_bytes", S_)
+            mask = mk("call", "ark_serialize::Flags::u8_bitmask", mk("param", "flags"))
+            fits = Tm.eq(lit(N8), size)
+            ws = [(pc, args[0]) for pc, kind, args, site in out.effects if kind == "write_all"]
+            in_last = [w for pc, w in ws if fits in pc]
+            extra = [w for pc, w in ws if Tm.not_(fits) in pc]
+            ok_fit = in_last == [Tm.store(cb, lit(N8 - 1), Tm.intop("bor", Tm.index(cb, lit(N8 - 1)), mask))]
+            ok_extra = extra == [cb, mk("array", mask)]
+            rej = [pc for pc, v in out.flows if v is variant("Err", variant("NotEnoughSpace"))]
+            ok_rej = rej == [(Tm.cmp("gt", mk("flags_bit_size", "F"), lit(8)),)]
+            rep.ob("FLAGS/%s/%s::serialize" % (cfg.name, f), ok_fit and ok_extra and ok_rej,
+                   "flagged serialisation: flags wider than a byte rejected: %s; when (bits + flag bits) still fit in %d bytes the mask is OR-ed into the LAST byte of the canonical bytes: %s; "
+                   "otherwise canonical bytes then one extra byte with the mask: %s (the two cases are told apart by the shared size formula)" % (ok_rej, N8, ok_fit, ok_extra), where=cfg.where(p))
+        p = find1(rep, cfg, "deserialize_with_flags(%s)" % f, r"^fields::%s::arkworks::<impl ark_serialize::CanonicalDeserializeWithFlags for .*>::deserialize_with_flags$" % f)
+        if p:
+            out = cfg.run(p, mode="glue")
+            oks = [(pc, v.args[1]) for pc, v in out.flows if v.op == "variant" and v.args[0] == "Ok"]
+            ok = False
+            why = "no unique success flow"
+            if len(oks) == 1 and oks[0][1].op == "tuple" and len(oks[0][1].args) == 2:
+                val, flg = oks[0][1].args
+                buf = mk("store", mk("repeat", lit(0), N8), mk("struct", "core::ops::RangeTo", ("end",), size), mk("read_bytes", mk("param", "reader"), None)) if False else None
+                # locate the pieces structurally
+                rts = [t for t in Tm.subterms(val) if t.op == "struct" and t.args[0] == "core::ops::RangeTo"]
+                len_ok = bool(rts) and all(dict(zip(t.args[1], t.args[2:])).get("end") is size for t in rts)
+                rem = [t for t in Tm.subterms(val) if t.op == "call" and t.args[0].endswith("from_u8_remove_flags")]
+                last_ok = bool(rem) and all(t.args[1].op == "index" and t.args[1].args[1] is lit(N8 - 1) for t in rem)
+                # limbs are read from the buffer after the flag byte was rewritten by from_u8_remove_flags
+                after_ok = val.op == "from_le_limbs" and val.args[1].op == "le_u64_limbs" and val.args[1].args[0].op == "store" and val.args[1].args[0].args[1] is lit(N8 - 1) \
+                    and val.args[1].args[0].args[2].op == "out"
+                flg_ok = flg.op == "payload" and flg.args[0] in rem
+                ges = [u for c in oks[0][0] for u in Tm.subterms(c) if u.op in ("ge", "gt", "le", "lt")]
+                canon_ok = len(ges) == 1 and ges[0].op == "ge" and c02.modulus_of_bigint_const(ges[0].args[1]) == K.MODULI[f]
+                ok = len_ok and last_ok and after_ok and flg_ok and canon_ok
+                why = "reads the shared size formula's number of bytes: %s; flags taken from the last byte (index %d): %s; limbs read after the flag bits were removed: %s; returned flags are the removed ones: %s; canonical check >= p: %s" % (
+                    len_ok, N8 - 1, last_ok, after_ok, flg_ok, canon_ok)
+            rep.ob("FLAGS/%s/%s::deserialize" % (cfg.name, f), ok, "flagged deserialisation: " + why, where=cfg.where(p))
+
+
 def limb_glue(rep, cfg):
     """the wrappers' own limb plumbing (bit-vector shape)"""
     is64 = cfg.name in ("A", "R")
@@ -289,6 +345,31 @@ def limb_glue(rep, cfg):
                 rep.ob("LIMBS/%s/%s::from_le_limbs" % (cfg.name, f), inner is want, "from_le_limbs must lay limb i out little-endian at bytes 8i..8i+8 and reduce; got %s" % Tm.show(inner, maxdepth=4), where=cfg.where(p))
 
 
+def wrapper_primitives(rep, cfg):
+    """the two byte primitives of each wrapper, interpreted down to the backend (arkworks serialiser / fiat from_montgomery+to_bytes)"""
+    is64 = cfg.name in ("A", "R")
+    for f in FIELDS:
+        W = wty(cfg, f)
+        S_ = mk("param", "self")
+        p = W + "::to_bytes_le"
+        if p in cfg.prog.bodies:
+            out = cfg.run(p, mode="deep")
+            want = mk("canon_bytes", field(S_, "0")) if is64 else mk("canon_bytes", mk("unmont", field(field(S_, "0"), "0")))
+            rep.ob("PRIM/%s/%s::to_bytes_le" % (cfg.name, f), out.value is want and not out.unmodelled,
+                   "to_bytes_le must serialise the canonical (non-Montgomery) value of self: expected %s, got %s" % (Tm.show(want), Tm.show(out.value, maxdepth=5)), where=cfg.where(p))
+        else:
+            rep.fail_closed("%s not found" % p)
+        p = W + "::from_raw_bytes"
+        if p in cfg.prog.bodies:
+            out = cfg.run(p, mode="deep")
+            red = mk("from_le_bytes_mod_order", f, mk("param", "bytes"))
+            got = c10.den(out.value)
+            rep.ob("PRIM/%s/%s::from_raw_bytes" % (cfg.name, f), got is red and not out.unmodelled,
+                   "from_raw_bytes must be the little-endian reduction of exactly the given bytes (brought into Montgomery form by the backend); got %s" % Tm.show(out.value, maxdepth=5), where=cfg.where(p))
+        else:
+            rep.fail_closed("%s not found" % p)
+
+
 def run(rep, facts, tier):
     rep.explanation = (
         "The hand-written conversion glue of the three fields is interpreted with arithmetic and the wrapper primitives abstract ('glue' mode) and each "
@@ -296,7 +377,7 @@ def run(rep, facts, tier):
         "2^(8 N_8) mod p; checked parse = reduce/re-serialise/compare; from_bigint rejects iff >= p (constant evaluated); stream (de)serialisation reads "
         "LE limbs and applies the same check; Ord compares canonical limbs most-significant first; Hash writes canonical bytes; integer conversions pack "
         "limbs; the wrappers' u32/u64 limb plumbing has the right bit-vector shape. That from_raw_bytes itself reduces modulo p is assumed.")
-    rep.rules += ["RED", "CONV", "CANON", "STREAM", "ORD", "HASH", "LIMBS", "STR"]
+    rep.rules += ["RED", "CONV", "CANON", "STREAM", "ORD", "HASH", "LIMBS", "STR", "PRIM", "FLAGS"]
     rep.trusted += ["arkworks from_le_bytes_mod_order / fiat from_bytes+to_montgomery reduce modulo p (x*R^2 < p*R for every x < R; an arithmetic, not a shape fact)", "summary table"]
     rep.assumptions += ["BigInt's own decimal ToString and char::to_digit are trusted"]
     for name, f in facts.items():
@@ -306,7 +387,9 @@ def run(rep, facts, tier):
         conversions(rep, cfg)
         strings(rep, cfg)
         stream_serialisation(rep, cfg)
+        flagged(rep, cfg)
         limb_glue(rep, cfg)
+        wrapper_primitives(rep, cfg)
         if name == "A":
             c02.from_bigint_rule(rep, cfg)
     from . import c17
